@@ -5,6 +5,7 @@ package message
 
 import (
 	"bytes"
+	"io"
 
 	"github.com/datastax/go-cassandra-native-protocol/primitive"
 )
@@ -370,6 +371,63 @@ func lemmaRoundTripAuthenticate(c *authenticateCodec, msg *Authenticate, version
 //@   requires elems: forall k int :: 0 <= k && k < len(rm.Columns) ==> rm.Columns[k] != nil
 //@   ensures global: flag.Contains(primitive.VariablesFlagGlobalTablesSpec) == (len(rm.Columns) > 0 && haveSameTable(rm.Columns))
 
+// ---- C03 / C01 (decoder half): a decoder consumes exactly the number of bytes the encoder announces ---------------
+// The lemma runs the real Decode on an arbitrary reader and then the real EncodedLength on the message it returned:
+// the two must agree on the byte count. Encoder and decoder branch on the same version predicates and field values,
+// so a field read under a different condition than it is written under breaks the equation.
+
+
+// every ERROR message reports its own ErrorMessage field (used where the dynamic type is not statically known)
+//@ iface Error.GetErrorMessage
+//@   prop C03, C01
+//@   assigns nothing
+//@   ensures msgServerError: typeis(self, *ServerError) && !isnil(unbox(self, *ServerError)) ==> result == unbox(self, *ServerError).ErrorMessage
+//@   ensures msgProtocolError: typeis(self, *ProtocolError) && !isnil(unbox(self, *ProtocolError)) ==> result == unbox(self, *ProtocolError).ErrorMessage
+//@   ensures msgAuthenticationError: typeis(self, *AuthenticationError) && !isnil(unbox(self, *AuthenticationError)) ==> result == unbox(self, *AuthenticationError).ErrorMessage
+//@   ensures msgOverloaded: typeis(self, *Overloaded) && !isnil(unbox(self, *Overloaded)) ==> result == unbox(self, *Overloaded).ErrorMessage
+//@   ensures msgIsBootstrapping: typeis(self, *IsBootstrapping) && !isnil(unbox(self, *IsBootstrapping)) ==> result == unbox(self, *IsBootstrapping).ErrorMessage
+//@   ensures msgTruncateError: typeis(self, *TruncateError) && !isnil(unbox(self, *TruncateError)) ==> result == unbox(self, *TruncateError).ErrorMessage
+//@   ensures msgSyntaxError: typeis(self, *SyntaxError) && !isnil(unbox(self, *SyntaxError)) ==> result == unbox(self, *SyntaxError).ErrorMessage
+//@   ensures msgUnauthorized: typeis(self, *Unauthorized) && !isnil(unbox(self, *Unauthorized)) ==> result == unbox(self, *Unauthorized).ErrorMessage
+//@   ensures msgInvalid: typeis(self, *Invalid) && !isnil(unbox(self, *Invalid)) ==> result == unbox(self, *Invalid).ErrorMessage
+//@   ensures msgConfigError: typeis(self, *ConfigError) && !isnil(unbox(self, *ConfigError)) ==> result == unbox(self, *ConfigError).ErrorMessage
+//@   ensures msgUnavailable: typeis(self, *Unavailable) && !isnil(unbox(self, *Unavailable)) ==> result == unbox(self, *Unavailable).ErrorMessage
+//@   ensures msgReadTimeout: typeis(self, *ReadTimeout) && !isnil(unbox(self, *ReadTimeout)) ==> result == unbox(self, *ReadTimeout).ErrorMessage
+//@   ensures msgWriteTimeout: typeis(self, *WriteTimeout) && !isnil(unbox(self, *WriteTimeout)) ==> result == unbox(self, *WriteTimeout).ErrorMessage
+//@   ensures msgReadFailure: typeis(self, *ReadFailure) && !isnil(unbox(self, *ReadFailure)) ==> result == unbox(self, *ReadFailure).ErrorMessage
+//@   ensures msgWriteFailure: typeis(self, *WriteFailure) && !isnil(unbox(self, *WriteFailure)) ==> result == unbox(self, *WriteFailure).ErrorMessage
+//@   ensures msgFunctionFailure: typeis(self, *FunctionFailure) && !isnil(unbox(self, *FunctionFailure)) ==> result == unbox(self, *FunctionFailure).ErrorMessage
+//@   ensures msgUnprepared: typeis(self, *Unprepared) && !isnil(unbox(self, *Unprepared)) ==> result == unbox(self, *Unprepared).ErrorMessage
+//@   ensures msgAlreadyExists: typeis(self, *AlreadyExists) && !isnil(unbox(self, *AlreadyExists)) ==> result == unbox(self, *AlreadyExists).ErrorMessage
+
+func lemmaDecodeLenError(c *errorCodec, source io.Reader, version primitive.ProtocolVersion) (Message, int, error) {
+	msg, err := c.Decode(source, version)
+	if err != nil {
+		return nil, 0, err
+	}
+	n, err := c.EncodedLength(msg, version)
+	return msg, n, err
+}
+
+//@ func lemmaDecodeLenError
+//@   prop C03, C01
+//@   expand (*message.errorCodec).Decode, (*message.errorCodec).EncodedLength
+//@   ensures consumedServerError: result2 == nil && typeis(result0, *ServerError) ==> pos(source) == old(pos(source)) + result1
+//@   ensures consumedProtocolError: result2 == nil && typeis(result0, *ProtocolError) ==> pos(source) == old(pos(source)) + result1
+//@   ensures consumedAuthenticationError: result2 == nil && typeis(result0, *AuthenticationError) ==> pos(source) == old(pos(source)) + result1
+//@   ensures consumedOverloaded: result2 == nil && typeis(result0, *Overloaded) ==> pos(source) == old(pos(source)) + result1
+//@   ensures consumedIsBootstrapping: result2 == nil && typeis(result0, *IsBootstrapping) ==> pos(source) == old(pos(source)) + result1
+//@   ensures consumedTruncateError: result2 == nil && typeis(result0, *TruncateError) ==> pos(source) == old(pos(source)) + result1
+//@   ensures consumedSyntaxError: result2 == nil && typeis(result0, *SyntaxError) ==> pos(source) == old(pos(source)) + result1
+//@   ensures consumedUnauthorized: result2 == nil && typeis(result0, *Unauthorized) ==> pos(source) == old(pos(source)) + result1
+//@   ensures consumedInvalid: result2 == nil && typeis(result0, *Invalid) ==> pos(source) == old(pos(source)) + result1
+//@   ensures consumedConfigError: result2 == nil && typeis(result0, *ConfigError) ==> pos(source) == old(pos(source)) + result1
+//@   ensures consumedUnavailable: result2 == nil && typeis(result0, *Unavailable) ==> pos(source) == old(pos(source)) + result1
+//@   ensures consumedReadTimeout: result2 == nil && typeis(result0, *ReadTimeout) ==> pos(source) == old(pos(source)) + result1
+//@   ensures consumedWriteTimeout: result2 == nil && typeis(result0, *WriteTimeout) ==> pos(source) == old(pos(source)) + result1
+//@   ensures consumedUnprepared: result2 == nil && typeis(result0, *Unprepared) ==> pos(source) == old(pos(source)) + result1
+//@   ensures consumedAlreadyExists: result2 == nil && typeis(result0, *AlreadyExists) ==> pos(source) == old(pos(source)) + result1
+
 // >>> generated by /verif/tools/gen_roundtrip.py
 // (do not edit by hand; the table of messages and fields is in the generator)
 
@@ -663,5 +721,105 @@ func lemmaRoundTripConfigError(c *errorCodec, msg *ConfigError, version primitiv
 //@   ensures kind: result1 == nil ==> typeis(result0, *ConfigError) && !isnil(unbox(result0, *ConfigError))
 //@   ensures ErrorMessageLen: result1 == nil ==> len(unbox(result0, *ConfigError).ErrorMessage) == len(msg.ErrorMessage)
 //@   ensures ErrorMessage: result1 == nil ==> forall k int :: 0 <= k && k < len(msg.ErrorMessage) ==> unbox(result0, *ConfigError).ErrorMessage[k] == msg.ErrorMessage[k]
+
+// decoder half of the length agreement: what Decode consumes is what EncodedLength announces for the decoded message
+
+func lemmaDecodeLenAuthenticate(c *authenticateCodec, source io.Reader, version primitive.ProtocolVersion) (Message, int, error) {
+	msg, err := c.Decode(source, version)
+	if err != nil {
+		return nil, 0, err
+	}
+	n, err := c.EncodedLength(msg, version)
+	return msg, n, err
+}
+
+//@ func lemmaDecodeLenAuthenticate
+//@   prop C03, C01
+//@   expand (*message.authenticateCodec).Decode, (*message.authenticateCodec).EncodedLength
+//@   ensures consumed: result2 == nil ==> pos(source) == old(pos(source)) + result1
+
+func lemmaDecodeLenAuthResponse(c *authResponseCodec, source io.Reader, version primitive.ProtocolVersion) (Message, int, error) {
+	msg, err := c.Decode(source, version)
+	if err != nil {
+		return nil, 0, err
+	}
+	n, err := c.EncodedLength(msg, version)
+	return msg, n, err
+}
+
+//@ func lemmaDecodeLenAuthResponse
+//@   prop C03, C01
+//@   expand (*message.authResponseCodec).Decode, (*message.authResponseCodec).EncodedLength
+//@   ensures consumed: result2 == nil ==> pos(source) == old(pos(source)) + result1
+
+func lemmaDecodeLenAuthChallenge(c *authChallengeCodec, source io.Reader, version primitive.ProtocolVersion) (Message, int, error) {
+	msg, err := c.Decode(source, version)
+	if err != nil {
+		return nil, 0, err
+	}
+	n, err := c.EncodedLength(msg, version)
+	return msg, n, err
+}
+
+//@ func lemmaDecodeLenAuthChallenge
+//@   prop C03, C01
+//@   expand (*message.authChallengeCodec).Decode, (*message.authChallengeCodec).EncodedLength
+//@   ensures consumed: result2 == nil ==> pos(source) == old(pos(source)) + result1
+
+func lemmaDecodeLenAuthSuccess(c *authSuccessCodec, source io.Reader, version primitive.ProtocolVersion) (Message, int, error) {
+	msg, err := c.Decode(source, version)
+	if err != nil {
+		return nil, 0, err
+	}
+	n, err := c.EncodedLength(msg, version)
+	return msg, n, err
+}
+
+//@ func lemmaDecodeLenAuthSuccess
+//@   prop C03, C01
+//@   expand (*message.authSuccessCodec).Decode, (*message.authSuccessCodec).EncodedLength
+//@   ensures consumed: result2 == nil ==> pos(source) == old(pos(source)) + result1
+
+func lemmaDecodeLenOptions(c *optionsCodec, source io.Reader, version primitive.ProtocolVersion) (Message, int, error) {
+	msg, err := c.Decode(source, version)
+	if err != nil {
+		return nil, 0, err
+	}
+	n, err := c.EncodedLength(msg, version)
+	return msg, n, err
+}
+
+//@ func lemmaDecodeLenOptions
+//@   prop C03, C01
+//@   expand (*message.optionsCodec).Decode, (*message.optionsCodec).EncodedLength
+//@   ensures consumed: result2 == nil ==> pos(source) == old(pos(source)) + result1
+
+func lemmaDecodeLenReady(c *readyCodec, source io.Reader, version primitive.ProtocolVersion) (Message, int, error) {
+	msg, err := c.Decode(source, version)
+	if err != nil {
+		return nil, 0, err
+	}
+	n, err := c.EncodedLength(msg, version)
+	return msg, n, err
+}
+
+//@ func lemmaDecodeLenReady
+//@   prop C03, C01
+//@   expand (*message.readyCodec).Decode, (*message.readyCodec).EncodedLength
+//@   ensures consumed: result2 == nil ==> pos(source) == old(pos(source)) + result1
+
+func lemmaDecodeLenRevise(c *reviseCodec, source io.Reader, version primitive.ProtocolVersion) (Message, int, error) {
+	msg, err := c.Decode(source, version)
+	if err != nil {
+		return nil, 0, err
+	}
+	n, err := c.EncodedLength(msg, version)
+	return msg, n, err
+}
+
+//@ func lemmaDecodeLenRevise
+//@   prop C03, C01
+//@   expand (*message.reviseCodec).Decode, (*message.reviseCodec).EncodedLength
+//@   ensures consumed: result2 == nil ==> pos(source) == old(pos(source)) + result1
 
 // <<< generated
